@@ -137,9 +137,24 @@ def lookback(ctx, cq):
   sides = [gd.test.left, gd.test.comparators[0]]
   de_node = next((x for x in sides if norm_text(x) != cidx), None)
   ok = False
+
+  def consts_of(*nodes):
+    """module-level integer constants mentioned in the expressions, folded (NUM_SPECIAL_MELODY_EVENTS is 2)"""
+    env = {}
+    fd_ = fold.Folder(ctx.P, ctx.S)
+    for n_ in nodes:
+      for nm in U.names_in(n_):
+        try:
+          v_ = fd_.module_const(ci.module, nm)
+          if isinstance(v_, int) and not isinstance(v_, bool):
+            env[nm] = ast.Constant(value=int(v_))
+        except fold.Unknown:
+          pass
+    return env
   try:
-    RE = nf.Builder({ie: E('I')}).rat(re_node)
-    DE = nf.Builder({idd: E('I')}).rat(de_node)
+    cenv0 = consts_of(re_node, de_node)
+    RE = nf.Builder(dict(cenv0, **{ie: E('I')})).rat(re_node)
+    DE = nf.Builder(dict(cenv0, **{idd: E('I')})).rat(de_node)
     ok = RE.equals(DE)
   except nf.NFError:
     RE = DE = None
